@@ -330,10 +330,8 @@ def annotate_file(repo_file, loops_file, out_file):
     for key, text in clauses.items():
         need = NEEDS.get((os.path.basename(loops_file), key[0], key[1]))
         name = lc_name(tag, key)
-        if need:
-            defs.append("#ifdef %s\n#define %s %s\n#else\n#define %s\n#endif" % (need, name, text, name))
-        else:
-            defs.append("#define %s %s" % (name, text))
+        cond = "!defined(VERIF_NO_LC)" + (" && defined(%s)" % need if need else "")
+        defs.append("#if %s\n#define %s %s\n#else\n#define %s\n#endif" % (cond, name, text, name))
     return {"file": os.path.basename(repo_file), "loops_annotated": len(clauses), "_defs": defs,
             "loops_total": sum(v for k, v in counts.items() if not k.startswith("macro:"))}
 
